@@ -46,6 +46,7 @@ type VPacketConn struct {
 	ReadPos  int
 	CloseErr error
 	Gated    bool
+	WGate    chan struct{} // if set: WriteTo waits for a token (lets a harness hold a writer inside the socket call)
 	Stream   bool          // stream transport behind proto.STUNConn: ReadFrom reports the frame's full size even when p is shorter
 	Idle     chan struct{} // if set: with the script exhausted and the socket open, ReadFrom waits (for ever)
 }
@@ -73,6 +74,9 @@ func (c *VPacketConn) ReadFrom(p []byte) (int, net.Addr, error) {
 }
 
 func (c *VPacketConn) WriteTo(p []byte, addr net.Addr) (int, error) {
+	if c.WGate != nil {
+		<-c.WGate
+	}
 	cp := append([]byte{}, p...)
 	c.Writes = append(c.Writes, VWrite{P: cp, Addr: addr})
 	if c.Failing {
@@ -245,6 +249,7 @@ type VMgrEnv struct {
 	Listeners []*VListener
 	Conns     []*VConn // every outbound peer connection handed out by AllocateConn
 	FailAlloc bool     // AllocatePacketConn/AllocateListener/AllocateConn may fail
+	DialGate  chan struct{} // if set: AllocateConn (the outbound dial) waits for the harness
 	Veto      bool     // the permission handler may refuse (arbitrary verdict per call)
 	VetoLog   []net.IP // IPs the permission handler refused
 	asked     []net.IP // policy memo: the handler is a function of the peer IP
@@ -282,6 +287,9 @@ func VNewManager(failAlloc, veto bool) *VMgrEnv {
 			return l, addr, nil
 		},
 		AllocateConn: func(c AllocateConnConfig) (net.Conn, error) {
+			if env.DialGate != nil {
+				<-env.DialGate // a slow dial
+			}
 			if env.FailAlloc && vBool() {
 				return nil, errNilRelaySocket
 			}
